@@ -430,6 +430,7 @@ RULES = [
     ("C02-R3", "every documented operator spelling denotes its operator (Op::from evaluated on all spellings x letter cases) [shared with C02]", lambda ctx: __import__("c02").r3(ctx)),
     ("X-NAMES", "column names and function names do not overlap (a bare word is tried as a column first) [shared]", lambda ctx: __import__("extra2").names_disjoint(ctx)),
     ("X-BRACKETS", "wherever the parser tests for a closing bracket of one style it provides for the other style as well [shared]", lambda ctx: __import__("extra2").bracket_styles_agree(ctx)),
+    ("C11-R7", "one-argument and split renderings of a query are lexed alike (blanks inside quoted literals included)", lambda ctx: __import__("extra2").lexer_split_invariance(ctx)),
 ]
 
 EXPLANATION = (
